@@ -30,7 +30,7 @@ fn main() {
     std::process::exit(2);
   }
   // keep panic messages of guarded cases out of the way
-  std::panic::set_hook(Box::new(|_| {}));
+  util::install_panic_hook();
   let prop = args[2].as_str();
   let thorough = args[3] == "thorough";
   let seed: u64 = args[4].parse().unwrap_or(0);
